@@ -11,6 +11,7 @@ source changes these functions at the next build.
 import AutomataVerif.Model.Freeze
 import AutomataVerif.Generated.Slots
 import AutomataVerif.Generated.ValidateLits
+import AutomataVerif.Generated.ObjectProtocol
 
 namespace AV.VA.Obj
 open AV AV.VA
@@ -44,28 +45,37 @@ def publicSlots (cls : String) : List String := (slotsOf cls).filter isPublic
 /-- The concrete automaton classes. -/
 def classes : List String := Gen.Slots.slots.map Prod.fst
 
-/-- Default values of `__init__` parameters (`allow_partial=False`, `acceptance_mode="both"`);
-`False` is the int `0`. -/
-def defaultOf (p : String) : Option PyVal :=
-  if p = "allow_partial" then some (.int 0)
-  else if p = "acceptance_mode" then some (.str "both")
-  else none
+/-- A literal of the source as a model value: `False` / `True` are the ints `0` / `1`
+(`bool ⊂ int`), `None` is the atom `other 0`, any other expression an opaque atom. -/
+def litVal : Gen.Object.Lit → PyVal
+  | .bool b => .int (if b then 1 else 0)
+  | .int i => .int i
+  | .str s => .str s
+  | .none => .other 0
+  | .other _ => .other 2
+
+/-- Default values of the parameters of `cls.__init__`, read from the regenerated signatures
+(`AV.Gen.Object.initDefaults`; at present `DFA(allow_partial=False)`,
+`DPDA / NPDA(acceptance_mode="both")`). -/
+def defaultOf (cls p : String) : Option PyVal :=
+  (alookup p ((alookup cls Gen.Object.initDefaults).getD [])).map litVal
 
 /-- Python's binding of `**kwargs` to a keyword-only signature: an unexpected keyword or a
 missing parameter without default is a `TypeError`; the result lists the parameters in
 signature order. -/
-def bindVal (kwargs : List (String × PyVal)) (p : String) : Option PyVal :=
+def bindVal (cls : String) (kwargs : List (String × PyVal)) (p : String) : Option PyVal :=
   match alookup p kwargs with
   | some v => some v
-  | none => defaultOf p
+  | none => defaultOf cls p
 
-def bindOne (kwargs : List (String × PyVal)) (p : String) : Res (String × PyVal) :=
-  match bindVal kwargs p with
+def bindOne (cls : String) (kwargs : List (String × PyVal)) (p : String) : Res (String × PyVal) :=
+  match bindVal cls kwargs p with
   | some v => .ok (p, v)
   | none => .error (.py .typeError)
 
-def bindArgs (params : List String) (kwargs : List (String × PyVal)) : Res (List (String × PyVal)) :=
-  if (akeys kwargs).all (fun k => decide (k ∈ params)) then resMapM (bindOne kwargs) params
+def bindArgs (cls : String) (params : List String) (kwargs : List (String × PyVal)) :
+    Res (List (String × PyVal)) :=
+  if (akeys kwargs).all (fun k => decide (k ∈ params)) then resMapM (bindOne cls kwargs) params
   else .error (.py .typeError)
 
 /-- The value `cls.__init__` passes to `Automaton.__init__` under keyword `k`: the bound
@@ -80,19 +90,50 @@ def superArg (bound : List (String × PyVal)) (k : String) : Res (String × PyVa
       | none => .error (.py .typeError)
     else .error (.py .typeError)
 
-/-- Attributes `cls.__init__` sets after `Automaton.__init__` (DFA: `clear_cache`). -/
+/-- Attributes `cls.__init__` binds itself after `Automaton.__init__` (DFA: `clear_cache` sets
+`_word_cache = []`, `_count_cache = []`), from the regenerated table
+`AV.Gen.Object.postInitAttrs` (name, shape of the value). -/
 def extraAttrs (cls : String) : List (String × PyVal) :=
-  (slotsOf cls).filterMap fun s =>
-    if s = "_word_cache" ∨ s = "_count_cache" then some (s, .list []) else none
+  ((alookup cls Gen.Object.postInitAttrs).getD []).map fun nv =>
+    (nv.1, if nv.2 = "[]" then .list [] else if nv.2 = "{}" then .dict [] else .other 2)
 
 /-- `cls(**kwargs)` up to (not including) validation. -/
 def classInit (allowMutable : Bool) (cls : String) (kwargs : List (String × PyVal)) : Res Inst :=
-  match bindArgs (initParamsOf cls) kwargs with
+  match bindArgs cls (initParamsOf cls) kwargs with
   | .error e => .error e
   | .ok bound =>
     match resMapM (superArg bound) (superKwOf cls) with
     | .error e => .error e
     | .ok kw => .ok { cls := cls, attrs := storeKwargs allowMutable kw ++ extraAttrs cls }
+
+/-! ### construction with `__post_init__` (validation) -/
+
+/-- The abstract value of a keyword list: the names with `norm`-alised values. -/
+def absKw (kw : List (String × PyVal)) : List (String × PyVal) := kw.map fun kv => (kv.1, kv.2.norm)
+
+/-- Does `cls` validate whatever `should_validate_automata` says?  `GNFA` overrides
+`__post_init__` with a plain `self.validate()` (regenerated call table). -/
+def alwaysValidates (cls : String) : Bool :=
+  alookup (cls ++ ".__post_init__") Gen.Validate.validateCalls == some ["validate"]
+
+/-- `cls(**kwargs)` including `Automaton.__post_init__`: the keywords are bound and handed to
+`Automaton.__init__`, which stores them (frozen unless `allow_mutable_automata`) and then calls
+`validate()` if `should_validate_automata` is on (GNFA: always) — before `cls.__init__` binds
+its own extra attributes.  This is `construct` (Model/Freeze.lean, the constructor C19's option
+theorems are about) on the keyword list.  `v cls` is the class's validator, a function of the
+abstract value of the stored definition (validators only test membership and equality of
+names, which the kind of container does not affect). -/
+def classInitV (v : String → List (String × PyVal) → Res Unit) (shouldValidate allowMutable : Bool)
+    (cls : String) (kwargs : List (String × PyVal)) : Res Inst :=
+  match bindArgs cls (initParamsOf cls) kwargs with
+  | .error e => .error e
+  | .ok bound =>
+    match resMapM (superArg bound) (superKwOf cls) with
+    | .error e => .error e
+    | .ok kw =>
+      match construct absKw (storeKwargs false) (v cls) (alwaysValidates cls) shouldValidate allowMutable kw with
+      | .error e => .error e
+      | .ok stored => .ok { cls := cls, attrs := stored ++ extraAttrs cls }
 
 /-- `getattr(self, name)`. -/
 def getattr (o : Inst) (name : String) : Res PyVal :=
@@ -114,6 +155,18 @@ def copy (allowMutable : Bool) (o : Inst) : Res Inst :=
   match inputParameters o with
   | .error e => .error e
   | .ok ps => classInit allowMutable o.cls ps
+
+/-- What `validate()` reads on a live object: the abstract value of the attributes that were
+handed to `Automaton.__init__` (the definition). -/
+def definitionOf (o : Inst) : List (String × PyVal) :=
+  (superKwOf o.cls).filterMap fun k => (alookup k o.attrs).map fun w => (k, w.norm)
+
+/-- `Automaton.copy` with the validation the new object's `__post_init__` performs. -/
+def copyV (v : String → List (String × PyVal) → Res Unit) (shouldValidate allowMutable : Bool)
+    (o : Inst) : Res Inst :=
+  match inputParameters o with
+  | .error e => .error e
+  | .ok ps => classInitV v shouldValidate allowMutable o.cls ps
 
 /-- `__getstate__`. -/
 def getstate (o : Inst) : Res (List (String × PyVal)) := inputParameters o
